@@ -58,7 +58,7 @@ def run(ctx: Ctx):
     ctx.extra["effects_of___call__"] = [e.describe() for e in summ if e.root[0] != "fresh"]
     # every entry of the frame table is rewritten from the argument on every call (shared with C01-C03): a frame kept
     # from an earlier call under some condition makes the result depend on the call history
-    exmap.table_entries(ctx, "R4.2")
+    ctx.attempt("R4.2", lambda: exmap.table_entries(ctx, "R4.2"))
 
     # ------------------------------------------------------------------ R4.1
     state_attrs = ["_equivalences", "_target_coordinates", "scale_factor", "_refmolecule", "_targetmolecule"]
@@ -77,9 +77,11 @@ def run(ctx: Ctx):
             bad.append(e)
         else:
             ctx.note("write-only attribute on the call path (harmless): %s" % e.describe())
-    ctx.ob("R4.1", em.call, "receiver state written during a call: %s" % sorted({e.target for e in self_effects}), not bad,
+    ctx.attempt("R4.1", lambda: ctx.ob("R4.1", em.call, "receiver state written during a call: %s" % sorted({e.target for e in self_effects}), not bad,
            "the only map state a call writes is the per-anchor frame table"
-           + ("" if not bad else " -- also: %s" % bad[0].describe()), node=em.call.node)
+           + ("" if not bad else " -- also: %s" % bad[0].describe()), node=em.call.node))
+
+
     n_cls = 0
     init_only = [f for f in em.cls.methods.values() if f not in path]
     for a in state_attrs:
@@ -163,16 +165,22 @@ def run(ctx: Ctx):
                 clears = True
             if isinstance(st, ast.Assign) and attr_chain(st.targets[0]) == frames_key and g_ is not em.init:
                 clears = True
-    ctx.ob("R4.2", em.recompute, "frame keys read = construction anchors; keys rewritten = anchors of the argument", compares_bonds or clears,
+    ctx.attempt("R4.2", lambda: ctx.ob("R4.2", em.recompute, "frame keys read = construction anchors; keys rewritten = anchors of the argument", compares_bonds or clears,
            "every frame read during a call was rewritten during that call: the species check must guarantee the argument "
            "has the same bonded structure (so the same anchors), or the table must be emptied before it is refilled"
            + ("" if compares_bonds or clears else " -- neither: a molecule with the same names but fewer bonds passes the check, "
               "some anchors are not recomputed and the frames of the PREVIOUS argument are used for them"),
-           node=em.recompute.node, species_check_compares_bonds=compares_bonds, table_cleared_per_call=clears)
+           node=em.recompute.node, species_check_compares_bonds=compares_bonds, table_cleared_per_call=clears))
+
+
+
+
+
     # the recomputation itself does not read the table
     rr = [g.name for g in (em.recompute, em.recompute_general) if g.name in readers]
-    ctx.ob("R4.2", em.recompute, "frame-table readers on the call path: %s" % sorted(readers), not rr,
-           "the recomputation writes the table without reading earlier entries", node=em.recompute.node)
+    ctx.attempt("R4.2", lambda: ctx.ob("R4.2", em.recompute, "frame-table readers on the call path: %s" % sorted(readers), not rr,
+           "the recomputation writes the table without reading earlier entries", node=em.recompute.node))
+
     ctx.floor("R4.2", n_sites, 1, "frame-table read sites reached from __call__")
 
     # ------------------------------------------------------------------ R4.3
@@ -229,10 +237,13 @@ def run(ctx: Ctx):
             bad_paths.append(verdict)
     guards = [n for n in walk_no_nested(f.node) if isinstance(n, ast.Raise) and "TypeError" in norm(n)]
     ok = kinds == {"type", "species"} and bool(effectful) and not bad_paths
-    ctx.ob("R4.3", f, "tests %s before effectful statements %s on %d paths" % (sorted(kinds), [norm(s)[:50] for s in effectful], n_paths),
+    ctx.attempt("R4.3", lambda: ctx.ob("R4.3", f, "tests %s before effectful statements %s on %d paths" % (sorted(kinds), [norm(s)[:50] for s in effectful], n_paths),
            ok, "a non-molecule or a molecule of another species is rejected with TypeError before anything is written"
            + ("" if ok else " -- %s" % (bad_paths[0] if bad_paths else "tests found: %s" % sorted(kinds))),
-           node=guards[0] if guards else f.node, guard_kinds=sorted(kinds), undecided=undec)
+           node=guards[0] if guards else f.node, guard_kinds=sorted(kinds), undecided=undec))
+
+
+
     ctx.floor("R4.3", len(guards), 1, "raise TypeError sites")
     # the guards themselves are effect-free (equality only reads)
     eq = ctx.repo.func("Molecule.__eq__", required=False)
@@ -356,16 +367,22 @@ def run(ctx: Ctx):
     # ------------------------------------------------------------------ R4.4
     arg_eff = [e for e in summ if e.root[0] == "param"]
     glob_eff = [e for e in summ if e.root[0] in ("global", "unknown")]
-    ctx.ob("R4.4", f, "effects on the argument: %d" % len(arg_eff), not arg_eff,
+    ctx.attempt("R4.4", lambda: ctx.ob("R4.4", f, "effects on the argument: %d" % len(arg_eff), not arg_eff,
            "mapping never writes to the argument molecule" + ("" if not arg_eff else " -- " + arg_eff[0].describe()),
-           node=f.node)
-    ctx.ob("R4.4", f, "effects on global/unknown storage: %d" % len(glob_eff), not glob_eff,
+           node=f.node))
+
+
+    ctx.attempt("R4.4", lambda: ctx.ob("R4.4", f, "effects on global/unknown storage: %d" % len(glob_eff), not glob_eff,
            "no write lands on storage of unknown ownership" + ("" if not glob_eff else " -- " + glob_eff[0].describe()),
-           node=f.node)
+           node=f.node))
+
+
     coord = [e for e in summ if e.root[0] == "self" and any(k in e.target for k in ("position", "velocity", "AtomGro", "Residue"))]
-    ctx.ob("R4.4", f, "coordinate writes reachable from the map's own state: %d" % len(coord), not coord,
+    ctx.attempt("R4.4", lambda: ctx.ob("R4.4", f, "coordinate writes reachable from the map's own state: %d" % len(coord), not coord,
            "coordinates of the construction molecules are never written"
-           + ("" if not coord else " -- " + coord[0].describe()), node=f.node)
+           + ("" if not coord else " -- " + coord[0].describe()), node=f.node))
+
+
 
     # ------------------------------------------------------------------ R4.5
     rm = em.restore_mol
@@ -380,9 +397,11 @@ def run(ctx: Ctx):
             and attr_chain(defs[0].value.func.value) == "self._targetmolecule"
         ok = all(r[0] == "fresh" for r in roots) and from_target
         why = "" if ok else ("the result is %s" % ("not a copy of the target" if not from_target else "not freshly allocated: %s" % sorted(roots)))
-    ctx.ob("R4.5", rm, rets[0] if rets else "result", ok,
+    ctx.attempt("R4.5", lambda: ctx.ob("R4.5", rm, rets[0] if rets else "result", ok,
            "the molecule returned is a fresh copy of the target (its names, order and atom count)" + ("" if ok else " -- " + why),
-           node=rets[0] if rets else rm.node)
+           node=rets[0] if rets else rm.node))
+
+
     loops = [n for n in walk_no_nested(rm.node) if isinstance(n, ast.For)]
     okl = False
     if loops and rets and isinstance(rets[0].value, ast.Name):
@@ -394,9 +413,11 @@ def run(ctx: Ctx):
                       and s.targets[0].attr == "position" and norm(s.targets[0].value) == norm(lp.target)]
             if len(stores) != 1 or p.end != "fall":
                 okl = False
-    ctx.ob("R4.5", rm, loops[0] if loops else "restore loop", okl,
+    ctx.attempt("R4.5", lambda: ctx.ob("R4.5", rm, loops[0] if loops else "restore loop", okl,
            "every atom of the result gets a new position on every path of the loop body (no construction-time "
-           "coordinate survives)", node=loops[0] if loops else rm.node)
+           "coordinate survives)", node=loops[0] if loops else rm.node))
+
+
     # resids from the argument on every path to the return
     rs = [s for s in walk_no_nested(f.node) if isinstance(s, ast.Assign) and isinstance(s.targets[0], ast.Attribute)
           and s.targets[0].attr == "resids"]
@@ -407,9 +428,11 @@ def run(ctx: Ctx):
             cfg.node_of(rs[0]).id in dom[cfg.node_of(r).id] and norm(r.value) == norm(rs[0].targets[0].value) for r in frets)
         src = [s for s in walk_no_nested(f.node) if isinstance(s, ast.Assign) and norm(s.targets[0]) == norm(rs[0].targets[0].value)]
         okr = okr and len(src) == 1 and isinstance(src[0].value, ast.Call) and call_name(src[0].value) == rm.name
-    ctx.ob("R4.5", f, rs[0] if rs else "residue numbers", okr,
+    ctx.attempt("R4.5", lambda: ctx.ob("R4.5", f, rs[0] if rs else "residue numbers", okr,
            "the returned molecule is the restored copy and carries the argument's residue numbers on every path",
-           node=rs[0] if rs else f.node)
+           node=rs[0] if rs else f.node))
+
+
 
     # ------------------------------------------------------------------ R4.6
     for api in ("Molecule.copy", "Residue.copy", "AtomGro.copy", "Residue.atoms@get"):
@@ -419,8 +442,9 @@ def run(ctx: Ctx):
         ctx.ob("R4.6", g, "%s returns %s" % (api, sorted({r[0] for r in roots})), not bad,
                "copying a molecule allocates new residues, new coordinate atoms and new arrays", node=g.node)
     keep = sorted(E.ctor_alias_params(ctx.repo.cls("Molecule")))
-    ctx.ob("R4.6", ctx.func("Molecule.__init__"), "Molecule.__init__ keeps by reference: %s" % keep, keep == [],
-           "a molecule stores copies of the residues it is constructed from", node=None)
+    ctx.attempt("R4.6", lambda: ctx.ob("R4.6", ctx.func("Molecule.__init__"), "Molecule.__init__ keeps by reference: %s" % keep, keep == [],
+           "a molecule stores copies of the residues it is constructed from", node=None))
+
     # documented sharing, listed for the record
     shared = sorted({e.target for e in E.summary(ctx.func("Molecule.resids@set")) if "AtomTop" in e.target})
     ctx.extra["documented_sharing"] = {"Molecule.copy shares the topology": True,
